@@ -130,85 +130,35 @@ where
             let (tag, args) = p.as_tagged()?;
             match tag {
                 "span" | "spant" | "spana" | "spanp" => {
-                    let log = w.log.clone();
+                    let n = w.spans.fetch_add(1, Ordering::SeqCst);
                     // how the guard is finished rotates with the span count: dropped, `complete()`, or
                     // `complete_with(..)` an explicit completion — a disabled guard must stay silent in all three
-                    let style = w.spans.fetch_add(1, Ordering::SeqCst) % 3;
-                    let log3 = w.log.clone();
-                    let ctxt3 = &w.ctxt;
-                    let finish = move |guard: SpanGuard<'_, _, _, _>| match style {
-                        0 => drop(guard),
-                        1 => {
-                            guard.complete();
-                        }
-                        _ => {
-                            let emitter = emit::emitter::from_fn(move |evt| {
-                                log3.lock().unwrap().push(format!("(done {})", ids_of_props(evt.props())));
-                            });
-                            guard.complete_with(emit::span::completion::default(emitter, ctxt3));
-                        }
-                    };
+                    let style = n % 3;
+                    let log = w.log.clone();
                     let emitter = emit::emitter::from_fn(move |evt| {
                         log.lock().unwrap().push(format!("(done {})", ids_of_props(evt.props())));
                     });
-                    let completion = emit::span::completion::default(emitter, &w.ctxt);
-                    let (mut guard, frame) = SpanGuard::new(
-                        RecFilter(w),
-                        &w.ctxt,
-                        emit::Empty,
-                        &w.rng,
-                        completion,
-                        emit::Empty,
-                        emit::Path::new_raw("c18"),
-                        "s",
-                        emit::Empty,
-                    );
-                    if tag == "spana" {
-                        // an async span: the body yields after every child, so the frame is exited and
-                        // re-entered between children (FrameFuture enters and exits around every poll)
-                        let fut = frame.in_future(async move {
-                            guard.start();
-                            for c in args {
-                                if run_prog(w, c).is_none() {
-                                    return None;
-                                }
-                                YieldOnce(false).await;
-                            }
-                            finish(guard);
-                            Some(())
-                        });
-                        return block_on(fut);
-                    }
-                    if tag == "spanp" {
-                        // the body panics after its children; the unwinding drops the guard inside the frame (one
-                        // completion iff enabled) and leaves the frame: afterwards the thread's traceparent is back
-                        let r = std::panic::catch_unwind(std::panic::AssertUnwindSafe(|| {
-                            frame.call(move || -> Option<()> {
-                                guard.start();
-                                for c in args {
-                                    run_prog(w, c)?;
-                                }
-                                let _keep = &guard;
-                                panic!("scripted")
-                            })
-                        }));
-                        return match r {
-                            Err(_) => Some(()),
-                            Ok(x) => x,
-                        };
-                    }
-                    let body = move || -> Option<()> {
-                        guard.start();
-                        for c in args {
-                            run_prog(w, c)?;
-                        }
-                        finish(guard);
-                        Some(())
-                    };
-                    if tag == "span" {
-                        frame.call(body)
+                    // … and so does how it is CREATED: `SpanGuard::new` directly, or the `emit::new_span!` macro on a
+                    // runtime assembled from the same parts (the macro must consult the runtime's filter — there is
+                    // no call-site `when:` — and build the same guard)
+                    if n % 2 == 0 {
+                        let completion = emit::span::completion::default(emitter, &w.ctxt);
+                        let (guard, frame) = SpanGuard::new(
+                            RecFilter(w),
+                            &w.ctxt,
+                            emit::Empty,
+                            &w.rng,
+                            completion,
+                            emit::Empty,
+                            emit::Path::new_raw("c18"),
+                            "s",
+                            emit::Empty,
+                        );
+                        drive_span(w, tag, args, guard, frame, style)
                     } else {
-                        std::thread::scope(|s| s.spawn(move || frame.call(body)).join().ok().flatten())
+                        let rt = emit::runtime::Runtime::build(emitter, RecFilter(w), &w.ctxt, emit::Empty, &w.rng);
+                        let (guard, frame) = emit::new_span!(rt: &rt, "s");
+                        drive_span(w, tag, args, guard, frame, style)
                     }
                 }
                 "carry" => {
@@ -290,6 +240,88 @@ where
             }
         }
         _ => None,
+    }
+}
+
+/// run the body of a span (children, then finishing the guard in the given style) inside its frame: on this thread,
+/// on a fresh thread, as a future polled once per child, or leaving by a panic
+fn drive_span<'g, C, H, T, P, F>(
+    w: &World<C>,
+    tag: &str,
+    args: &[Sexp],
+    mut guard: SpanGuard<'g, T, P, F>,
+    frame: emit::Frame<H>,
+    style: usize,
+) -> Option<()>
+where
+    C: Held,
+    C::Frame: Send,
+    H: emit::Ctxt + Send,
+    H::Frame: Send,
+    T: emit::Clock + Send,
+    P: Props + Send,
+    F: emit::span::completion::Completion + Send,
+{
+    let log3 = w.log.clone();
+    let ctxt3 = &w.ctxt;
+    let finish = move |guard: SpanGuard<'g, T, P, F>| match style {
+        0 => drop(guard),
+        1 => {
+            guard.complete();
+        }
+        _ => {
+            let emitter = emit::emitter::from_fn(move |evt| {
+                log3.lock().unwrap().push(format!("(done {})", ids_of_props(evt.props())));
+            });
+            guard.complete_with(emit::span::completion::default(emitter, ctxt3));
+        }
+    };
+    if tag == "spana" {
+        // an async span: the body yields after every child, so the frame is exited and
+        // re-entered between children (FrameFuture enters and exits around every poll)
+        let fut = frame.in_future(async move {
+            guard.start();
+            for c in args {
+                if run_prog(w, c).is_none() {
+                    return None;
+                }
+                YieldOnce(false).await;
+            }
+            finish(guard);
+            Some(())
+        });
+        return block_on(fut);
+    }
+    if tag == "spanp" {
+        // the body panics after its children; the unwinding drops the guard inside the frame (one
+        // completion iff enabled) and leaves the frame: afterwards the thread's traceparent is back
+        let r = std::panic::catch_unwind(std::panic::AssertUnwindSafe(|| {
+            frame.call(move || -> Option<()> {
+                guard.start();
+                for c in args {
+                    run_prog(w, c)?;
+                }
+                let _keep = &guard;
+                panic!("scripted")
+            })
+        }));
+        return match r {
+            Err(_) => Some(()),
+            Ok(x) => x,
+        };
+    }
+    let body = move || -> Option<()> {
+        guard.start();
+        for c in args {
+            run_prog(w, c)?;
+        }
+        finish(guard);
+        Some(())
+    };
+    if tag == "span" {
+        frame.call(body)
+    } else {
+        std::thread::scope(|s| s.spawn(move || frame.call(body)).join().ok().flatten())
     }
 }
 
@@ -393,6 +425,7 @@ fn run(line: &str) -> String {
                 go(c, None, has_sampler, sh, outside, progs)
             }
             "assert" => go(emit::runtime::AssertInternal(concrete), None, has_sampler, sh, outside, progs),
+            "option" => go(Some(concrete), None, has_sampler, sh, outside, progs),
             "slot" => {
                 // the erased ctxt of an ambient runtime, as `emit_traceparent::setup().init()` installs it
                 let slot: &'static emit::runtime::AmbientSlot = Box::leak(Box::new(emit::runtime::AmbientSlot::new()));
@@ -529,7 +562,7 @@ fn gen(rng: &mut Rng, tier: Tier, n: usize) -> Vec<String> {
             let ds = (0..nd).map(|_| Sexp::bool(rng.chance(3, 5))).collect();
             let mut budget = 1 + rng.usize(size);
             let top = 1 + rng.usize(3);
-            let variant = *rng.pick(&["concrete", "concrete", "boxdyn", "arcdyn", "assert", "slot", "setup"]);
+            let variant = *rng.pick(&["concrete", "concrete", "boxdyn", "arcdyn", "assert", "slot", "setup", "option"]);
             let mut v = vec![Sexp::atom(variant), Sexp::bool(rng.chance(3, 4)), Sexp::tagged("decisions", ds), Sexp::bool(rng.bool())];
             for _ in 0..top {
                 v.push(gen_prog(rng, depth, &mut budget));
